@@ -7,7 +7,7 @@ CFG = dict(
                "notification — is a commit whose aggregate verifies, with pairwise distinct non-zero committee signers, at least a quorum of them, "
                "H(fullData)=root, for this identifier (C02_reported_decision_has_valid_certificate); a locally reached first decision is for the proposal "
                "the instance accepted from the leader of its round, whose value passed the value check, in the round of the commits "
-               "(C02_local_decision_is_for_the_leaders_checked_proposal); one lemma per forged-certificate class (duplicate / zero / foreign signer, "
+               "(C02_local_decision_for_leaders_proposal); one lemma per forged-certificate class (duplicate / zero / foreign signer, "
                "sub-quorum, bad aggregate signature, value≠root, wrong identifier, non-commit, other height) shows the controller state is unchanged "
                "and nothing is emitted. Quorum = 2f+1 of 3f+1 is proved from the kernel translated from ComputeQuorumAndPartialQuorum.",
     level_note="Trusted: Lean kernel (axioms propext/Classical.choice/Quot.sound only), fact extractor, harness abstraction (sigOk = result of the real "
@@ -17,7 +17,7 @@ CFG = dict(
     technique="Lean 4 proof (container invariant by induction over op lists) + regenerated facts + differential execution + re-verification oracle",
     lean=["Ssv.Props.C02"],
     engines=[dict(harness="qbft", driver="m_qbft", args=["-mode", "c02"], case_delim="reset",
-                  n_quick=25000, n_thorough=250000, thorough_seeds=4, n_search=80000, search_seeds=3)],
+                  n_quick=20000, n_thorough=250000, thorough_seeds=4, n_search=80000, search_seeds=3)],
     rule="real controllers (n=4,7) brought to a random point of honest or forged-Byzantine traffic, then a stream of forged certificates: every single-field "
          "mutation of real aggregated commits (signer list edits: drop/duplicate/swap/foreign/zero/reorder/all; re-aggregation with a wrong or foreign key; "
          "full data / root / round / height / identifier / type / data round / justifications, re-signed or not; signature flips), then the rest of the traffic "
